@@ -43,9 +43,18 @@ def stringArray : Option Json → List String
   | some (.arr xs) => xs.filterMap Json.str?
   | _ => []
 
+def isObjB : Json → Bool
+  | .obj _ => true
+  | _ => false
+
+def isObjOrNullB : Json → Bool
+  | .obj _ => true
+  | .null => true
+  | _ => false
+
 /-- `ParsePublicKeys` / `ParseServices`: the object entries of an array -/
 def objectEntries : Option Json → List Json
-  | some (.arr xs) => xs.filter fun x => match x with | .obj _ => true | _ => false
+  | some (.arr xs) => xs.filter isObjB
   | _ => []
 
 /-- a Go `[]interface{}` that is nil when empty marshals as `null` -/
